@@ -191,6 +191,9 @@ pub enum Op {
     /// only the target's first key
     ObjAppendOverlapping(Tgt, usize),
     ObjAppendOverlap1(Tgt),
+    /// `Extend<(&K, &V)>` with every key of the target bound to a different value, `extra` new
+    /// keys, and the first new key given twice (the later pair wins, as for `insert`)
+    ObjExtendOverlapping(Tgt, usize),
     ObjClear(Tgt),
     ObjIterMutAssign(Tgt, Leaf),
     // value level
@@ -198,7 +201,7 @@ pub enum Op {
     IndexMutIdx(Tgt, usize, Leaf),
     PointerMutEmptyAssign(usize, Leaf),
     /// the target is replaced by a value built with repeated keys: 0 = `json!` literal, 1 =
-    /// `to_value` of a map that emits a key twice, 2 = `object!` literal (last occurrence wins,
+    /// `to_value` of a map that emits a key twice, 2 = `object!` literal, 3/4 = `Object`/`Value` collected from pairs (last occurrence wins,
     /// as for serde_json's builders)
     AssignBuiltWithRepeatedKey(Tgt, usize),
     /// the doc-hidden primitive behind the builders, on a key that is present / absent
@@ -270,6 +273,8 @@ pub fn ops() -> Vec<Op> {
         v.push(ObjAppendOverlapping(t, 0));
         v.push(ObjAppendOverlapping(t, 2));
         v.push(ObjAppendOverlap1(t));
+        v.push(ObjExtendOverlapping(t, 0));
+        v.push(ObjExtendOverlapping(t, 2));
     }
     v.push(Take(Tgt::PathA1(0)));
     v.push(CloneLive(Tgt::PathA1(0)));
@@ -277,7 +282,7 @@ pub fn ops() -> Vec<Op> {
     v.push(ObjInsert(Tgt::PathA1(0), "q", One));
     v.push(PointerMutEmptyAssign(0, One));
     for t in [Tgt::Root(0), Tgt::KeyA(0)] {
-        for how in 0..3 {
+        for how in 0..5 {
             v.push(AssignBuiltWithRepeatedKey(t, how));
         }
         v.push(ValueInsertPrimitive(t, "a", Str));
@@ -756,6 +761,33 @@ pub fn apply(op: &Op, live: &mut Vec<Value>, model: &mut Vec<R>) -> Result<(), S
             }
             Some("other-left-with-0".to_string())
         }),
+        Op::ObjExtendOverlapping(t, extra) => on_object!(t, "extend(overlapping)", |o| {
+            let keys: Vec<String> = o.iter().map(|(k, _)| k.to_string()).collect();
+            let mut pairs: Vec<(String, Value)> = Vec::new();
+            for k in &keys {
+                pairs.push((k.clone(), Value::from(format!("ext-{k}").as_str())));
+            }
+            for i in 0..*extra {
+                pairs.push((format!("zz{i}"), Value::from(format!("new-{i}").as_str())));
+            }
+            if *extra > 0 {
+                pairs.push(("zz0".to_string(), Value::from("new-0-again")));
+            }
+            o.extend(pairs.iter().map(|(k, v)| (k, v)));
+            ok()
+        }, |m| {
+            let keys: Vec<String> = m.keys().cloned().collect();
+            for k in keys {
+                m.insert(k.clone(), R::Str(format!("ext-{k}")));
+            }
+            for i in 0..*extra {
+                m.insert(format!("zz{i}"), R::Str(format!("new-{i}")));
+            }
+            if *extra > 0 {
+                m.insert("zz0".to_string(), R::Str("new-0-again".to_string()));
+            }
+            ok()
+        }),
         Op::ObjAppendOverlap1(t) => on_object!(t, "append(one common key)", |o| {
             let first: Option<String> = {
                 let mut ks: Vec<String> = o.iter().map(|(k, _)| k.to_string()).collect();
@@ -885,7 +917,16 @@ pub fn apply(op: &Op, live: &mut Vec<Value>, model: &mut Vec<R>) -> Result<(), S
             let built = guard(|| match how {
                 0 => sonic_rs::json!({"k": 1, "z": [true], "k": "second"}),
                 1 => sonic_rs::to_value(&Dup).expect("to_value"),
-                _ => sonic_rs::Value::from(sonic_rs::object! {"k": 1, "z": [true], "k": "second"}),
+                2 => sonic_rs::Value::from(sonic_rs::object! {"k": 1, "z": [true], "k": "second"}),
+                _ => {
+                    let vals = [Value::from(1), Value::from(&[true][..]), Value::from("second")];
+                    let pairs = [("k", &vals[0]), ("z", &vals[1]), ("k", &vals[2])];
+                    if *how == 3 {
+                        sonic_rs::Value::from(pairs.into_iter().collect::<sonic_rs::Object>())
+                    } else {
+                        pairs.into_iter().collect::<sonic_rs::Value>()
+                    }
+                }
             })?;
             let want: BTreeMap<String, R> = [("k".to_string(), R::Str("second".into())), ("z".to_string(), R::Arr(vec![R::Bool(true)]))].into_iter().collect();
             match (impl_target(live, *t), model_target(model, *t)) {
@@ -1141,7 +1182,7 @@ pub fn families(tier: Tier, _variant: &str) -> Vec<Family> {
                 let kind = d.split('(').next().unwrap_or("");
                 let on0 = d.contains("Root(0)") || d.contains("KeyA(0)");
                 (on0 && matches!(kind, "Push" | "Pop" | "SwapRemove" | "SplitOff" | "RetainNumbers" | "ObjInsert" | "ObjRemove" | "EntryOrInsert" | "EntryRemove" | "IndexMutKey" | "Take" | "CloneLive" | "ObjIterMutAssign" | "Drain01"))
-                    || matches!(kind, "DropLive" | "AssignCloneInto" | "AppendFromLive1" | "ObjAppendFromLive1" | "ObjAppendOverlapping" | "ObjAppendOverlap1")
+                    || matches!(kind, "DropLive" | "AssignCloneInto" | "AppendFromLive1" | "ObjAppendFromLive1" | "ObjAppendOverlapping" | "ObjAppendOverlap1" | "ObjExtendOverlapping")
                     || d.contains("PathA1")
             })
             .collect();
